@@ -53,4 +53,5 @@ SHARED = {
     "C20": [("C19", "R5.grant-is-consumption", "what is credited back is what was consumed, discarded data included"),
             ("C21", "R2.addressed-to-remote-id", "credit goes to the channel number the peer chose, or its window never reopens"),
             ("C19", "R6.advertised-is-tracked", "the window the peer is told is the window whose consumption triggers the next credit: otherwise the threshold is never reached")],
+    "C32": [("C27", "R5.", "check-file reads through the handle: the hash covers the requested range only if the handle's tracked offset is the file's real one")],
 }
